@@ -423,3 +423,81 @@ META["C20"] = {
                    "Exploration; concurrent arm asserts only schedule-independent facts."),
     "level_note": "Trusted: goja itself (the same engine, but a fresh instance) as the reference for script semantics.",
 }
+
+add("C02", "TestC02",
+    rule=("Cases: transform_declarations built from const / external / field / object / array / template / custom_func (depth <= 5, <= ~40 "
+          "declarations, 0-3 templates referenced at several cursors and with an xpath on the reference, verbatim re-use of earlier leaf "
+          "declarations at other positions, arrays of 0-13 children, xpath and xpath_dynamic anchors incl. blank / failing dynamic values, "
+          "all type / no_trim / keep_empty_or_null combinations, custom functions concat, coalesce, upper, lower, uuidv3, dateTimeToEpoch, "
+          "copy, javascript with ignore_error) over 1-4 records of xml (attributes, nesting, repeated names, mixed content), json "
+          "(nested, arrays), csv2 (header/child records) and edi (segments with child segments); xpaths from a record-relative grammar "
+          "(child steps, *, ., .., //, @attr, positional and value predicates, unions). Oracle: an independent reference evaluator "
+          "(own template inlining, cursor logic, normalisation, casts, positional arguments with zero values) run on the same record node "
+          "(obtained from a pass-through twin transform so that failed records are visible too); node-set selection delegated to "
+          "idr.MatchAll without cache. Where the documentation is silent (kept empty container as null / {} / []; failing xpath_dynamic; "
+          "failing argument under ignore_error) all documented-compatible outcomes are accepted and counted. Non-trivial: identical "
+          "declaration text with an anchor at >= 2 positions, or a template used at >= 2 places, or an array of >= 10 children, or >= 3 "
+          "nested anchors; distinct by SHA-256 of the case."),
+    quick={"checks": 2000, "shards": 4, "timeout": 900},
+    thorough={"checks": 15000, "shards": 16, "timeout": 3300},
+    floors={"identical-text": 0.05, "template-multi-use": 0.05, "array>=10": 0.05, "deep-anchors": 0.05,
+            "format=xml": 0.3, "format=json": 0.15, "format=csv2": 0.05, "format=edi": 0.05},
+    assumptions=["trusted base: idr.MatchAll (expression cache disabled) selects the node set of an xpath (the xpath binding is C11's / C04's subject); "
+                 "built-in custom functions are called directly by the model",
+                 "template references carry an xpath only when the inlined body admits one (not const / external / array bodies)",
+                 "type casts are generated on string-valued results only"])
+
+add("C04", "TestC04",
+    rule=("Cases: a generated XML or JSON document (names a, b, c, r; depth <= 6; repeated and nested names; mixed content; attribute k in "
+          "0,1,2; one case in ten up to ~200 nodes) and a target xpath of the stream-target class (absolute or //, wildcards, at most one "
+          "final-step predicate that inspects only the candidate: attribute, child value, text, not(), count(), contains(); numeric "
+          "comparisons only on all-numeric JSON documents). Every case is streamed through idr.NewXMLStreamReader / NewJSONStreamReader "
+          "and through the xml / json file format with a copy transform. Oracle: the delivered sequence equals [n in P : no proper "
+          "ancestor of n in P and n in F] in document order (P = matches of the path without the final predicate, F = matches of the "
+          "full xpath, both by idr.MatchAll on the completely loaded document, itself cross-checked against a token-level DOM), each "
+          "compared as a full snapshot taken at delivery time plus its ancestor chain. Non-trivial: >= 2 path matches and a nested match, "
+          "a rejected-then-accepted pair or >= 2 candidates under one parent; distinct by SHA-256 of the case."),
+    quick={"checks": 2500, "shards": 4, "timeout": 900},
+    thorough={"checks": 40000, "shards": 16, "timeout": 3300},
+    floors={},
+    assumptions=["positional predicates, last(), predicates on non-final steps, reverse/sibling axes and two predicates on the last step are "
+                 "outside the stated class and not generated"])
+
+add("C08", "TestC08",
+    rule=("JSON cases: any nesting <= 8, empty containers, hostile keys (empty string, array-marker look-alikes), escape forms, numeric "
+          "forms (ints, fractions, exponents, -0, 2^53+-1, 1e308), insignificant whitespace; reference encoding/json; compared: "
+          "J2NodeToInterface(root,true), JSONify2(root), copy of the whole document and of every top-level member. XML cases: attributes, "
+          "default and prefixed namespaces (several prefixes, re-declaration in inner scopes, one URI under two prefixes), mixed content, "
+          "CDATA, references, comments, PIs, prolog; the reader's tree must be isomorphic to a token-level DOM built from a second "
+          "xml.Decoder (element order, local name, prefix, URI, attributes in order as leading children, merged character data). "
+          "Non-trivial: JSON - a 0-or-1-member container, an empty key or a non-integer number; XML - >= 2 namespace bindings, mixed "
+          "content or CDATA/references; distinct by SHA-256 of the case."),
+    quick={"checks": 2500, "shards": 4, "timeout": 900},
+    thorough={"checks": 50000, "shards": 16, "timeout": 3300},
+    floors={},
+    assumptions=["duplicate JSON keys are not generated (a JSON value has none); comments and PIs are not claimed and ignored",
+                 "the pseudo-URI 'xmlns' the decoder reports for namespace-declaration attributes is not compared"])
+
+META["C02"] = {
+    "technique": "property-based testing against an independent reference evaluator of the documented transform semantics",
+    "design_ref": "DESIGN.md §5 C02, Appendix A",
+    "level_text": ("Generated declaration trees x records for four formats; every emitted value (or per-record failure) must equal the "
+                   "reference evaluator's. The generator aims at the places where two things meet: identical declaration text at different "
+                   "cursors, templates at several cursors, arrays of ten and more children, nested anchors. Exploration."),
+    "level_note": ("Trusted: idr.MatchAll for node-set selection and the exported custom functions; the model re-implements parse.go, "
+                   "value.go, validate.go (templates) and invokeCustomFunc.go. Documentation gaps are tolerated explicitly (Appendix A rows T)."),
+}
+META["C04"] = {
+    "technique": "differential property-based testing: streaming delivery vs whole-document selection",
+    "design_ref": "DESIGN.md §5 C04",
+    "level_text": ("Generated documents and target xpaths of the stated class; the streamed record sequence must equal the outermost path "
+                   "matches that satisfy the predicate themselves, in document order, each complete at delivery. Exploration."),
+    "level_note": "Trusted: idr.MatchAll on the fully loaded document (cross-checked against a token-level DOM in the same case).",
+}
+META["C08"] = {
+    "technique": "round-trip / differential property-based testing (encoding/json, token-level XML DOM)",
+    "design_ref": "DESIGN.md §5 C08",
+    "level_text": ("Generated JSON values must convert back to an equal value (float64 precision) through every conversion path incl. copy; "
+                   "generated XML documents must be represented as the standard decoder reports them. Exploration."),
+    "level_note": "Trusted: encoding/json and encoding/xml (a second decoder instance) as references.",
+}
